@@ -20,8 +20,20 @@
 // After the callers of a run have returned, every statement they used is executed once more on its host
 // with a background context (liveness probe: an in-flight entry nobody completes blocks exactly these).
 //
+// Metadata, failure kinds (meta.go): P and X carry, next to the prepared id, the byte widths of the bind columns
+// declared / of the values found in the frame (one token for the specification); a query call checks its Iter's
+// column against the PREPARE whose id it executed; a PREPARE fails as ERROR frame / undecodable frame / answer of
+// another kind / never answered (request timeout; own Sessions, judged at the end of the tier) / by the server
+// closing the host's connections (connectionLost: K then also stands for "the connection serving the call was
+// closed", the licence to return an abort error). Batches may carry an entry without values (plain statement, not
+// prepared: absent from S, checked at the server); an entry written <key>/<1000+n> binds n values one of which no
+// column type accepts (value error expected, nothing sent).
+// Stepped runs (stepped): every PREPARE / EXECUTE / BATCH answer is held at the server and released - like the
+// starts and cancellations of the executions - by a schedule word, one letter at a time.
+//
 // The history is one `trace` op; the Lean specification `Obs` (lean/Model/Prepare.lean) judges it.
-// Decisions depend on the ORDER of events only. Delays are schedule perturbation, never part of a verdict;
+// Decisions depend on the ORDER of events only (the one exception is declared: a PREPARE that is never answered
+// fails by the Session's 2.5 s request timeout; a run in which that timeout hits anything else is not judged). Delays are schedule perturbation, never part of a verdict;
 // the watchdog (25 s) counts only together with a goroutine dump that shows a goroutine blocked in gocql.
 package main
 
@@ -78,6 +90,7 @@ func (h *hist) add(s string) {
 
 type pfate struct {
 	fail  bool
+	kind  int // how a failing PREPARE fails (pfFrame, pfUndecodable, pfOtherKind, pfSilent; meta.go)
 	delay time.Duration
 }
 
@@ -92,6 +105,7 @@ type stmtDef struct {
 }
 
 type nodeState struct {
+	node       *memcluster.Node
 	idx        int
 	ip         string
 	hostID     string
@@ -122,13 +136,47 @@ type world struct {
 	live     map[int]*liveCall // calls with a cancellable context (history lock)
 	stalled  bool              // the watchdog expired but the executions returned right after the goroutine dump
 	// hooks for directed scenarios: called with the history lock held, may override the fate
-	onPrepare func(n *nodeState, stmt int, serial int) (pfate, chan struct{})
-	onExec    func(n *nodeState, call int, known bool) (xfate, chan struct{}, bool)
+	issued   map[string][]byte // id -> the value widths declared with it (never forgotten; history lock)
+	serialOf map[string]int    // id -> the number of the latest PREPARE that issued it (history lock)
+	prepKey  map[int]string    // PREPARE number -> key label (history lock)
+	lastX    map[int][][]byte  // call -> the ids of its last EXECUTE / BATCH frame (history lock)
+	silent   map[string]int    // key label -> the one PREPARE of that key that was never answered (history lock)
+	proto    int
+	// connection loss (at most one per world): from D on - until the pool is seen whole again - every call that is
+	// running or starts is PERMITTED to return an abort error (K:<c>, here: "the connection serving call c was closed
+	// by the server", the same licence a done context gives); a call that starts later has no such licence
+	lossy        bool         // the window is open (history lock)
+	lost         bool         // a connection loss happened in this world
+	running      map[int]bool // calls started and not returned (history lock)
+	permitted    map[int]bool // calls with a K logged for the connection loss (history lock)
+	connsAtStart map[*gocql.Conn]bool
+	closedAt     map[string]int // key label -> the PREPARE that was answered by closing the connections
+	spurious     bool           // a call returned the driver's timeout error without a silent PREPARE of its statements
+	timeout      time.Duration  // the Session's request timeout, if the world has a short one (silent PREPAREs allowed)
+	onPrepare    func(n *nodeState, stmt int, serial int) (pfate, chan struct{})
+	onExec       func(n *nodeState, call int, known bool) (xfate, chan struct{}, bool)
 }
+
+// badValue: nvals = badValue + n stands for n bound values one of which cannot be marshalled into any column type. For
+// the specification that is a value list that matches no bind metadata (its 'number' equals no column count): the
+// execution must end with the value error and send nothing, exactly as for a wrong number of values.
+const badValue = 1000
 
 type entrySpec struct {
 	stmt  int
 	nvals int
+	plain bool // batch entry without values: sent as a plain statement, not prepared (nvals 0)
+}
+
+// prepared: the entries the driver prepares (all but the plain entries of a batch)
+func (c *callSpec) prepared() []entrySpec {
+	var es []entrySpec
+	for _, e := range c.entries {
+		if !e.plain {
+			es = append(es, e)
+		}
+	}
+	return es
 }
 
 type callSpec struct {
@@ -153,6 +201,9 @@ const (
 	ctxTimer              // cancelled ctxD after the start
 	nCtxModes
 )
+
+// ctxManual: a cancellable context that nothing cancels by itself (the stepped runs cancel it from their schedule)
+const ctxManual = nCtxModes + 1
 
 var ctxNames = []string{"bg", "pre", "dlpast", "at-prep-recv", "at-prep-reply", "at-bind", "at-exec", "dl-during", "timer"}
 
@@ -189,7 +240,7 @@ func (w *world) cancelOnPrepareLocked(n *nodeState, si int, mode int) {
 		if lc.spec.ctx != mode || lc.returned || lc.kLogged || lc.spec.host != n.idx {
 			continue
 		}
-		for _, e := range lc.spec.entries {
+		for _, e := range lc.spec.prepared() {
 			if e.stmt == si {
 				nums = append(nums, num)
 				break
@@ -200,6 +251,50 @@ func (w *world) cancelOnPrepareLocked(n *nodeState, si int, mode int) {
 	for _, num := range nums {
 		w.cancelLocked(num)
 	}
+}
+
+// permitAbortLocked logs K:<num> once: call num may return an abort error from here on (history lock held).
+func (w *world) permitAbortLocked(num int) {
+	if !w.permitted[num] {
+		w.permitted[num] = true
+		w.h.evs = append(w.h.evs, hev{text: fmt.Sprintf("K:%d", num)})
+	}
+}
+
+// loseConnections: the server closes every connection of node n. Logged first (K for every running call, in call
+// order), then done.
+func (w *world) loseConnections(n *nodeState) {
+	w.h.mu.Lock()
+	w.lossy, w.lost = true, true
+	var nums []int
+	for num := range w.running {
+		nums = append(nums, num)
+	}
+	sort.Ints(nums)
+	for _, num := range nums {
+		w.permitAbortLocked(num)
+	}
+	w.h.mu.Unlock()
+	for _, sc := range n.node.ServerConns() {
+		sc.Close()
+	}
+}
+
+// poolRenewed (one-host worlds): the pool holds at least one connection, none of them closed and none of them one
+// of the connections the session had before the loss (those are all closed by the server, whether or not the
+// driver has noticed yet; a connection dialled after the driver noticed a loss is a good one). The pool refills
+// the rest on the next Pick.
+func (w *world) poolRenewed() bool {
+	conns := gocql.VerifSessionConns(w.sess)
+	if len(conns) == 0 {
+		return false
+	}
+	for _, c := range conns {
+		if c.Closed() || w.connsAtStart[c] {
+			return false
+		}
+	}
+	return true
 }
 
 func keyLabel(host, stmt int) string { return fmt.Sprintf("h%d.s%d", host, stmt) }
@@ -240,7 +335,7 @@ func after(d time.Duration, gate chan struct{}, f func()) {
 }
 
 // parseBatchTail returns the default timestamp of a BATCH frame (v3+), 0 if none.
-func parseBatchTail(req *memcluster.Request) (ts int64, nvals []int) {
+func parseBatchTail(req *memcluster.Request) (ts int64, vals [][][]byte) {
 	r := &memcluster.R{B: req.Frame.Body}
 	r.Byte()
 	n := r.Short()
@@ -251,10 +346,11 @@ func parseBatchTail(req *memcluster.Request) (ts int64, nvals []int) {
 			r.ShortBytes()
 		}
 		nv := r.Short()
-		nvals = append(nvals, nv)
+		ev := [][]byte{}
 		for j := 0; j < nv && r.Err == nil; j++ {
-			r.Bytes()
+			ev = append(ev, r.Bytes())
 		}
+		vals = append(vals, ev)
 	}
 	r.Short()
 	flags := r.Byte()
@@ -271,10 +367,15 @@ func trimTrace(op string) string {
 	return strings.TrimPrefix(strings.TrimPrefix(op, "traceU "), "trace ")
 }
 
-func hexIDs(ids [][]byte) string {
+// hexToks: per prepared entry <id>/<widths of its values>
+func hexToks(ids, sigs [][]byte) string {
 	var p []string
-	for _, id := range ids {
-		p = append(p, vh.Hex(id))
+	for i, id := range ids {
+		var sg []byte
+		if i < len(sigs) {
+			sg = sigs[i]
+		}
+		p = append(p, vh.Hex(id)+"/"+vh.Hex(sg))
 	}
 	return strings.Join(p, ",")
 }
@@ -313,19 +414,51 @@ func (w *world) handle(n *nodeState, req *memcluster.Request) {
 		w.cancelOnPrepareLocked(n, si, ctxAtPrepRecv)
 		var op byte
 		var body []byte
+		w.prepKey[serial] = key
+		silent, closing := false, false
 		if f.fail {
-			w.h.evs = append(w.h.evs, hev{text: fmt.Sprintf("P:%d:%s:err", serial, key)})
-			op, body = memcluster.OpError, memcluster.ErrorBody(memcluster.ErrOverloaded, fmt.Sprintf("pf-%d", serial), nil)
+			kind := f.kind
+			if kind == pfSilent {
+				// at most one PREPARE per key is never answered, and only where the driver's timeout is short
+				if _, used := w.silent[key]; used || w.timeout == 0 {
+					kind = pfFrame
+				} else {
+					w.silent[key] = serial
+					silent = true
+				}
+			}
+			if kind == pfClosed {
+				if _, used := w.closedAt[key]; used || w.lost {
+					kind = pfFrame
+				} else {
+					w.closedAt[key] = serial
+					closing = true
+				}
+			}
+			w.h.evs = append(w.h.evs, hev{text: fmt.Sprintf("P:%d:%s:err/%s", serial, key, pfWords[kind])})
+			op, body = failedPrepareReply(kind, serial)
 		} else {
 			id := w.idFor(si, serial)
 			n.registered[string(id)] = si
 			nc := w.stmts[si].ncols
-			w.h.evs = append(w.h.evs, hev{text: fmt.Sprintf("P:%d:%s:ok/%s/%d", serial, key, vh.Hex(id), nc)})
+			sig := w.bindSig(si, serial, nc)
+			w.issued[string(id)] = sig
+			w.serialOf[string(id)] = serial
+			w.h.evs = append(w.h.evs, hev{text: fmt.Sprintf("P:%d:%s:ok/%s/%d/%s", serial, key, vh.Hex(id), nc, vh.Hex(sig))})
 			op = memcluster.OpResult
-			body = memcluster.PreparedBody(4, id, intCols(nc, "b"), nil,
+			body = memcluster.PreparedBody(w.proto, id, sigCols(sig, "b"), nil,
 				[]memcluster.Col{{Name: fmt.Sprintf("r%d", serial), Type: memcluster.TInt}})
 		}
 		w.h.mu.Unlock()
+		if silent {
+			// never answered: the flight's Conn.exec ends with the driver's timeout
+			return
+		}
+		if closing {
+			// never answered: the connections go instead (after the gate / delay, like an answer)
+			after(f.delay, gate, func() { w.loseConnections(n) })
+			return
+		}
 		atomic.AddInt32(&w.pending, 1)
 		after(f.delay, gate, func() {
 			w.h.mu.Lock()
@@ -335,22 +468,29 @@ func (w *world) handle(n *nodeState, req *memcluster.Request) {
 			atomic.AddInt32(&w.pending, -1)
 		})
 	case memcluster.OpExecute, memcluster.OpBatch:
-		var ids [][]byte
+		var ids, sigs [][]byte
 		var ts int64
 		var frameVals []int
+		var plainStmts []string
 		if req.Op == memcluster.OpExecute {
 			ids = [][]byte{req.PreparedID}
+			sigs = [][]byte{widthsOf(req.Values)}
 			ts = req.Timestamp
 			frameVals = []int{len(req.Values)}
 		} else {
-			var nv []int
-			ts, nv = parseBatchTail(req)
+			var vals [][][]byte
+			ts, vals = parseBatchTail(req)
 			for i, k := range req.BatchKinds {
 				if k == 1 {
 					ids = append(ids, req.BatchIDs[i])
-					if i < len(nv) {
-						frameVals = append(frameVals, nv[i])
+					if i < len(vals) {
+						frameVals = append(frameVals, len(vals[i]))
+						sigs = append(sigs, widthsOf(vals[i]))
+					} else {
+						sigs = append(sigs, nil)
 					}
+				} else {
+					plainStmts = append(plainStmts, req.BatchStmts[i])
 				}
 			}
 		}
@@ -362,13 +502,34 @@ func (w *world) handle(n *nodeState, req *memcluster.Request) {
 			bad = "Z:frame-of-unknown-call"
 		} else {
 			c := cs.(*callSpec)
+			pes := c.prepared()
 			if c.host != n.idx {
 				bad = fmt.Sprintf("Z:frame-of-call-%d-on-another-host", call)
-			} else if len(frameVals) == len(c.entries) {
-				for i, e := range c.entries {
+			} else if len(frameVals) == len(pes) {
+				for i, e := range pes {
 					if frameVals[i] != e.nvals {
 						bad = fmt.Sprintf("Z:frame-of-call-%d-carries-%d-values-for-%d-bound", call, frameVals[i], e.nvals)
 					}
+				}
+			}
+			// the entries without values travel as plain statements, in their places, with their own texts
+			var wantPlain []string
+			wantKinds := ""
+			for _, e := range c.entries {
+				if e.plain {
+					wantPlain = append(wantPlain, w.stmts[e.stmt].text)
+					wantKinds += "0"
+				} else {
+					wantKinds += "1"
+				}
+			}
+			if req.Op == memcluster.OpBatch && bad == "" {
+				gotKinds := ""
+				for _, k := range req.BatchKinds {
+					gotKinds += strconv.Itoa(int(k))
+				}
+				if gotKinds != wantKinds || strings.Join(plainStmts, "\x00") != strings.Join(wantPlain, "\x00") {
+					bad = fmt.Sprintf("Z:batch-of-call-%d-entry-kinds-%s-for-%s-or-another-plain-statement", call, gotKinds, wantKinds)
 				}
 			}
 		}
@@ -394,7 +555,7 @@ func (w *world) handle(n *nodeState, req *memcluster.Request) {
 			w.h.evs = append(w.h.evs, hev{text: fmt.Sprintf("L:%d", call)})
 		}
 		if w.cut[call] {
-			w.h.evs = append(w.h.evs, hev{text: fmt.Sprintf("X:%d:%s:err", call, hexIDs(ids))})
+			w.h.evs = append(w.h.evs, hev{text: fmt.Sprintf("X:%d:%s:err", call, hexToks(ids, sigs))})
 			w.h.mu.Unlock()
 			sc.Reply(req.Stream, memcluster.OpError, memcluster.ErrorBody(memcluster.ErrInvalid, "xe", nil))
 			return
@@ -406,11 +567,22 @@ func (w *world) handle(n *nodeState, req *memcluster.Request) {
 			f = n.xf[n.nx]
 			n.nx++
 		}
+		w.lastX[call] = ids
 		ans := "ok"
 		op, body := byte(memcluster.OpResult), memcluster.VoidBody()
+		if req.Op == memcluster.OpExecute {
+			// rows of one column named after the PREPARE that issued the id (with stable ids: the latest one); without
+			// metadata if the frame says the driver has it from the PREPARE answer
+			name := "r?"
+			if sn, ok := w.serialOf[string(ids[0])]; ok {
+				name = fmt.Sprintf("r%d", sn)
+			}
+			body = memcluster.RowsBody([]memcluster.Col{{Name: name, Type: memcluster.TInt}}, nil, nil, req.QFlags&0x02 != 0)
+		}
+		unTok := func(id []byte) string { return "un/" + vh.Hex(id) + "/" + vh.Hex(w.issued[string(id)]) }
 		switch {
 		case unknown != nil:
-			ans = "un/" + vh.Hex(unknown)
+			ans = unTok(unknown)
 			op, body = memcluster.OpError, memcluster.ErrorBody(memcluster.ErrUnprepared, "unprepared", memcluster.UnpreparedExtra(unknown))
 		case f.kind == 1:
 			ans = "err"
@@ -418,15 +590,22 @@ func (w *world) handle(n *nodeState, req *memcluster.Request) {
 		case f.kind == 2:
 			w.nforget++
 			n.registered = map[string]int{}
-			ans = "un/" + vh.Hex(ids[0])
+			ans = unTok(ids[0])
 			op, body = memcluster.OpError, memcluster.ErrorBody(memcluster.ErrUnprepared, "unprepared", memcluster.UnpreparedExtra(ids[0]))
+		case f.kind == 4 && !w.lost:
+			// not answered: the server closes the host's connections instead
+			ans = "err"
+			w.h.evs = append(w.h.evs, hev{text: fmt.Sprintf("X:%d:%s:%s", call, hexToks(ids, sigs), ans)})
+			w.h.mu.Unlock()
+			after(f.delay, gate, func() { w.loseConnections(n) })
+			return
 		case f.kind == 3:
 			w.nforget++
 			other := []byte("other-id")
-			ans = "un/" + vh.Hex(other)
+			ans = unTok(other)
 			op, body = memcluster.OpError, memcluster.ErrorBody(memcluster.ErrUnprepared, "unprepared", memcluster.UnpreparedExtra(other))
 		}
-		w.h.evs = append(w.h.evs, hev{text: fmt.Sprintf("X:%d:%s:%s", call, hexIDs(ids), ans)})
+		w.h.evs = append(w.h.evs, hev{text: fmt.Sprintf("X:%d:%s:%s", call, hexToks(ids, sigs), ans)})
 		if lc := w.live[call]; lc != nil && lc.spec.ctx == ctxAtExec {
 			w.cancelLocked(call)
 		}
@@ -496,12 +675,16 @@ type worldCfg struct {
 	stmts                    []stmtDef
 	stableID                 bool
 	ks                       string
+	timeout                  time.Duration // 0: the usual 10 minutes (no request ever times out)
+	proto                    int           // native protocol version (0: 4)
 }
 
 func newWorld(r *vh.Rng, c worldCfg) (*world, error) {
 	w := &world{r: r, h: &hist{}, stmts: c.stmts, stmtIdx: map[string]int{}, byIP: map[string]*nodeState{},
 		stableID: c.stableID, ks: c.ks, keyLabel: map[string]string{}, capacity: c.capacity, frames: map[int]int{}, cut: map[int]bool{},
-		live: map[int]*liveCall{}}
+		live: map[int]*liveCall{}, issued: map[string][]byte{}, serialOf: map[string]int{}, prepKey: map[int]string{},
+		lastX: map[int][][]byte{}, silent: map[string]int{}, timeout: c.timeout, running: map[int]bool{}, permitted: map[int]bool{},
+		closedAt: map[string]int{}}
 	for i, s := range c.stmts {
 		w.stmtIdx[s.text] = i
 	}
@@ -509,17 +692,25 @@ func newWorld(r *vh.Rng, c worldCfg) (*world, error) {
 	for i := 0; i < c.nhosts; i++ {
 		ips = append(ips, fmt.Sprintf("10.14.0.%d", i+1))
 	}
-	cl := memcluster.NewCluster(4, ips...)
+	if c.proto == 0 {
+		c.proto = 4
+	}
+	w.proto = c.proto
+	cl := memcluster.NewCluster(c.proto, ips...)
 	for i, ip := range ips {
 		n := &nodeState{idx: i, ip: ip, registered: map[string]int{}, pf: map[int][]pfate{}}
 		w.nodes = append(w.nodes, n)
 		w.byIP[ip] = n
 		node := cl.Nodes[ip]
+		n.node = node
 		node.Handle = func(req *memcluster.Request) { w.handle(n, req) }
 	}
-	cfg := sess.Config(cl, 4, ips...)
+	cfg := sess.Config(cl, c.proto, ips...)
 	cfg.NumConns = c.nconns
 	cfg.Timeout = 10 * time.Minute
+	if c.timeout > 0 {
+		cfg.Timeout = c.timeout
+	}
 	cfg.ConnectTimeout = 20 * time.Second
 	cfg.MaxPreparedStmts = c.capacity
 	cfg.Keyspace = c.ks
@@ -531,6 +722,10 @@ func newWorld(r *vh.Rng, c worldCfg) (*world, error) {
 	}
 	w.sess = s
 	sess.WaitConns(s, c.nhosts*c.nconns, 5*time.Second)
+	w.connsAtStart = map[*gocql.Conn]bool{}
+	for _, cn := range gocql.VerifSessionConns(s) {
+		w.connsAtStart[cn] = true
+	}
 	pol.mu.Lock()
 	for ip, h := range pol.hosts {
 		if n := w.byIP[ip]; n != nil {
@@ -568,6 +763,56 @@ func (w *world) sampleLen() {
 
 var pfRe = regexp.MustCompile(`pf-(\d+)`)
 
+// checkResultCol (history lock held): "" or a Z event
+func (w *world) checkResultCol(num int, c *callSpec, name string) string {
+	ids := w.lastX[num]
+	if len(ids) != 1 || !strings.HasPrefix(name, "r") {
+		return fmt.Sprintf("Z:call-%d-result-column-%s-without-a-frame", num, sanitize(name))
+	}
+	sn, err := strconv.Atoi(name[1:])
+	key, known := w.prepKey[sn]
+	if err != nil || !known || key != keyLabel(c.host, c.entries[0].stmt) ||
+		(!w.stableID && string(w.idFor(c.entries[0].stmt, sn)) != string(ids[0])) {
+		return fmt.Sprintf("Z:call-%d-result-metadata-%s-is-not-that-of-the-PREPARE-whose-id-it-executed", num, sanitize(name))
+	}
+	return ""
+}
+
+// classify (history lock held): the outcome word of the T event
+func (w *world) classify(c *callSpec, err error) string {
+	if err == nil {
+		return "ok"
+	}
+	if errors.Is(err, context.Canceled) || errors.Is(err, context.DeadlineExceeded) {
+		return "ctx"
+	}
+	var keys []string
+	for _, e := range c.prepared() {
+		keys = append(keys, keyLabel(c.host, e.stmt))
+	}
+	if strings.HasPrefix(err.Error(), "can not marshal ") {
+		// the value error, if the call did bind a value that cannot be marshalled (otherwise: outside the specification)
+		for _, e := range c.prepared() {
+			if e.nvals >= badValue {
+				return "ce"
+			}
+		}
+	}
+	if _, isReq := err.(gocql.RequestError); !isReq {
+		if n, ok := w.failedPrepareSerial(err.Error(), keys); ok {
+			return fmt.Sprintf("pe/%d", n)
+		}
+		if silentRe.MatchString(err.Error()) && w.timeout > 0 {
+			w.spurious = true
+		}
+		if w.lost && connLostRe.MatchString(err.Error()) {
+			// a connection error: an abort error, judged like a context error (licensed by K or not)
+			return "ctx"
+		}
+	}
+	return classify(err)
+}
+
 func classify(err error) string {
 	if err == nil {
 		return "ok"
@@ -586,6 +831,9 @@ func classify(err error) string {
 	}
 	if strings.HasPrefix(msg, "gocql: expected ") || strings.HasPrefix(msg, "gocql: batch statement ") {
 		return "ce"
+	}
+	if strings.HasPrefix(msg, "can not marshal ") {
+		return "ce-marshal"
 	}
 	return "other/" + sanitize(msg)
 }
@@ -610,7 +858,7 @@ func (w *world) doCall(c *callSpec) {
 	w.h.ncalls++
 	w.calls.Store(num, c)
 	var es []string
-	for _, e := range c.entries {
+	for _, e := range c.prepared() {
 		es = append(es, fmt.Sprintf("%s/%d", keyLabel(c.host, e.stmt), e.nvals))
 	}
 	kind := "q"
@@ -618,6 +866,10 @@ func (w *world) doCall(c *callSpec) {
 		kind = "b"
 	}
 	w.h.evs = append(w.h.evs, hev{text: fmt.Sprintf("S:%d:%s:%s", num, kind, strings.Join(es, ","))})
+	w.running[num] = true
+	if w.lossy {
+		w.permitAbortLocked(num)
+	}
 	ctx := context.WithValue(context.Background(), ctxKey{}, w.nodes[c.host].ip)
 	if c.ctx != ctxBg {
 		var cancel context.CancelFunc
@@ -645,9 +897,20 @@ func (w *world) doCall(c *callSpec) {
 	}
 	w.h.mu.Unlock()
 	vals := func(n int) []interface{} {
+		bad := -1
+		if n >= badValue {
+			// n - badValue values, one of which no column type accepts (Marshal fails: reported, not sent)
+			n -= badValue
+			if n > 0 {
+				bad = num % n
+			}
+		}
 		v := make([]interface{}, n)
 		for i := range v {
 			v[i] = i
+			if i == bad {
+				v[i] = struct{}{}
+			}
 		}
 		return v
 	}
@@ -660,6 +923,7 @@ func (w *world) doCall(c *callSpec) {
 		}
 	}
 	var err error
+	resultCol := ""
 	func() {
 		defer func() {
 			if r := recover(); r != nil {
@@ -670,7 +934,9 @@ func (w *world) doCall(c *callSpec) {
 		if c.batch {
 			b := w.sess.NewBatch(gocql.UnloggedBatch).WithContext(ctx).WithTimestamp(int64(num + 1))
 			for i, e := range c.entries {
-				if c.ctx == ctxAtBind {
+				if e.plain {
+					b.Query(w.stmts[e.stmt].text)
+				} else if c.ctx == ctxAtBind {
 					b.Bind(w.stmts[e.stmt].text, binder(i, e.nvals))
 				} else {
 					b.Query(w.stmts[e.stmt].text, vals(e.nvals)...)
@@ -679,19 +945,33 @@ func (w *world) doCall(c *callSpec) {
 			err = w.sess.ExecuteBatch(b)
 		} else {
 			e := c.entries[0]
+			var q *gocql.Query
 			if c.ctx == ctxAtBind {
-				err = w.sess.Bind(w.stmts[e.stmt].text, binder(0, e.nvals)).WithContext(ctx).WithTimestamp(int64(num + 1)).Exec()
+				q = w.sess.Bind(w.stmts[e.stmt].text, binder(0, e.nvals))
 			} else {
-				err = w.sess.Query(w.stmts[e.stmt].text, vals(e.nvals)...).WithContext(ctx).WithTimestamp(int64(num + 1)).Exec()
+				q = w.sess.Query(w.stmts[e.stmt].text, vals(e.nvals)...)
 			}
+			it := q.WithContext(ctx).WithTimestamp(int64(num + 1)).Iter()
+			if cols := it.Columns(); len(cols) > 0 {
+				resultCol = cols[0].Name
+			}
+			err = it.Close()
 		}
 	}()
 	w.h.mu.Lock()
 	if lc := w.live[num]; lc != nil {
 		lc.returned = true
 	}
+	delete(w.running, num)
 	if !w.h.stopped {
-		w.h.evs = append(w.h.evs, hev{text: fmt.Sprintf("T:%d:%s", num, classify(err))})
+		if err == nil && !c.batch {
+			// result metadata of that statement: the Iter's column is the one the PREPARE whose id the call's last
+			// frame carried declared (with ids stable per statement: a PREPARE of that statement on that host)
+			if bad := w.checkResultCol(num, c, resultCol); bad != "" {
+				w.h.evs = append(w.h.evs, hev{text: bad})
+			}
+		}
+		w.h.evs = append(w.h.evs, hev{text: fmt.Sprintf("T:%d:%s", num, w.classify(c, err))})
 	}
 	w.h.mu.Unlock()
 	w.sampleLen()
@@ -789,6 +1069,7 @@ func (w *world) render(hung string) string {
 	w.h.mu.Unlock()
 	// resolve the flights of R events to PREPARE numbers
 	unresolved := 900000
+	closedUsed := map[string]bool{}
 	labels := map[interface{}]int{}
 	var words []string
 	for _, e := range evs {
@@ -809,9 +1090,17 @@ func (w *world) render(hung string) string {
 					}
 				}
 			case strings.HasPrefix(tag, "err:"):
-				if m := pfRe.FindStringSubmatch(tag); m != nil {
-					lab, _ = strconv.Atoi(m[1])
+				key := strings.TrimSuffix(strings.TrimPrefix(e.text, "R:"), ":")
+				w.h.mu.Lock()
+				if n, ok := w.failedPrepareSerial(tag, []string{key}); ok {
+					lab = n
+				} else if n, ok := w.closedAt[key]; ok && !closedUsed[key] && w.lost {
+					// the first flight of that key that failed without a numbered error is the one whose PREPARE
+					// was answered by closing the connections (a later one never reached the server)
+					closedUsed[key] = true
+					lab = n
 				}
+				w.h.mu.Unlock()
 			}
 			if lab < 0 {
 				lab = unresolved
@@ -827,7 +1116,9 @@ func (w *world) render(hung string) string {
 	// a cache that cannot purge for capacity (unbounded, or far larger than the number of keys of a run): the
 	// specification then also demands a reason for every removal
 	opw := "trace "
-	if w.capacity == 0 || w.capacity >= 1000 {
+	if (w.capacity == 0 || w.capacity >= 1000) && !w.lost {
+		// (after a connection loss a flight can fail before its PREPARE reaches the server: such a removal has no
+		// observable reason, so these histories are judged without the every-removal-justified clause)
 		opw = "traceU "
 	}
 	return opw + strings.Join(words, " ")
@@ -888,7 +1179,7 @@ func (w *world) probes(wg *sync.WaitGroup) *sync.WaitGroup {
 		var keys []hk
 		w.calls.Range(func(_, v interface{}) bool {
 			cs := v.(*callSpec)
-			for _, e := range cs.entries {
+			for _, e := range cs.prepared() {
 				k := hk{cs.host, e.stmt}
 				if !seen[k] {
 					seen[k] = true
@@ -921,6 +1212,10 @@ func (rn *runner) emit(w *world, wg *sync.WaitGroup, class string) bool {
 	rn.seq++
 	wg = w.probes(wg)
 	op, hung := w.finish(wg, rn.outdir, fmt.Sprintf("%d", rn.seq))
+	if w.spurious && hung == "" {
+		rn.out.Dist["conc/not-judged(harness-stalled-beyond-the-short-request-timeout)"]++
+		return true
+	}
 	cls := "conc/" + class
 	if hung != "" {
 		rn.nhang++
@@ -956,7 +1251,7 @@ func (rn *runner) randomWith(near bool) {
 	nst := 1 + r.Intn(5)
 	caps := []int{1, 1, 2, 2, 3, 1000, 1000, 0}
 	c := worldCfg{nhosts: 1 + r.Intn(2), nconns: 1 + r.Intn(2), capacity: caps[r.Intn(len(caps))],
-		stableID: r.Intn(3) == 0}
+		stableID: r.Intn(3) == 0, proto: []int{4, 4, 4, 3}[r.Intn(4)]}
 	if near {
 		c.stmts = mkStmtsNear(2+r.Intn(6), r)
 		nst = len(c.stmts)
@@ -980,7 +1275,7 @@ func (rn *runner) randomWith(near bool) {
 	for _, n := range w.nodes {
 		for j := range w.stmts {
 			for i := 0; i < 40; i++ {
-				f := pfate{fail: r.Intn(100) < pfail}
+				f := pfate{fail: r.Intn(100) < pfail, kind: r.Intn(3)}
 				if slow || r.Intn(4) == 0 {
 					f.delay = time.Duration(r.Intn(1500)) * time.Microsecond
 				}
@@ -1019,6 +1314,8 @@ func (rn *runner) randomWith(near bool) {
 				e := entrySpec{stmt: s, nvals: w.stmts[s].ncols}
 				if r.Intn(12) == 0 {
 					e.nvals = r.Intn(4)
+				} else if r.Intn(16) == 0 && e.nvals > 0 {
+					e.nvals += badValue
 				}
 				return e
 			}
@@ -1030,6 +1327,12 @@ func (rn *runner) randomWith(near bool) {
 						e.nvals = 1 // entries without values are not prepared
 					}
 					cs.entries = append(cs.entries, e)
+				}
+				// ... and travel as plain statements among the prepared ones (never alone: a call prepares something)
+				if r.Intn(3) == 0 {
+					at := r.Intn(len(cs.entries) + 1)
+					pe := entrySpec{stmt: r.Intn(nst), plain: true}
+					cs.entries = append(cs.entries[:at], append([]entrySpec{pe}, cs.entries[at:]...)...)
 				}
 			} else {
 				cs.entries = []entrySpec{pick()}
@@ -1051,7 +1354,7 @@ func (rn *runner) randomWith(near bool) {
 	if near {
 		cls = "random-near"
 	}
-	rn.emit(w, &wg, fmt.Sprintf("%s/hosts%d/cap%d/cancel%d", cls, c.nhosts, c.capacity, cancelPct))
+	rn.emit(w, &wg, fmt.Sprintf("%s/hosts%d/cap%d/cancel%d/v%d", cls, c.nhosts, c.capacity, cancelPct, c.proto))
 }
 
 // randCtx gives the call a context that becomes done at some point.
@@ -1226,7 +1529,7 @@ func (rn *runner) retryUnderContention(attempts int) {
 	}
 	bad := 0
 	w.onPrepare = func(n *nodeState, stmt, serial int) (pfate, chan struct{}) {
-		return pfate{fail: stmt == bad}, nil
+		return pfate{fail: stmt == bad, kind: serial % 3}, nil
 	}
 	var stop int32
 	var hammers sync.WaitGroup
@@ -1325,7 +1628,7 @@ func (rn *runner) lostStatement(k int, reprepareFails bool, batch bool) {
 		if serial == nprepBefore {
 			// the re-PREPARE caused by the first UNPREPARED answer: now let the other answers go, hold this one
 			once.Do(func() { close(release) })
-			return pfate{fail: reprepareFails, delay: 60 * time.Millisecond}, gate
+			return pfate{fail: reprepareFails, kind: serial % 3, delay: 60 * time.Millisecond}, gate
 		}
 		return pfate{}, nil
 	}
@@ -1367,6 +1670,352 @@ func (rn *runner) lostStatement(k int, reprepareFails bool, batch bool) {
 	rn.emit(w, &wg, fmt.Sprintf("lost-statement/%s/k%d/fails=%v", kind, k, reprepareFails))
 }
 
+// silentTimeout: the request timeout of the Sessions in which one PREPARE per key is never answered. Every other
+// frame of such a world is answered at once, so nothing else comes near it; should a call nevertheless return the
+// timeout error without an unanswered PREPARE of its statements (the harness itself stalled), the run is not judged.
+const silentTimeout = 2500 * time.Millisecond
+
+type startedRun struct {
+	w     *world
+	wg    *sync.WaitGroup
+	class string
+}
+
+// prepareFails: the PREPARE of a cold statement (role 0), or the re-PREPARE after the server lost a cached
+// statement (role 1: the executions are answered UNPREPARED first), fails in one of the four ways prepareStatement
+// can fail (meta.go) while 2..4 executions - queries, or batches with another statement first - are waiting for
+// it (the answer is held until they have started; a silent PREPARE is never answered: the driver's timeout ends
+// the flight's Conn.exec). All of them get that failure, none of them before the entry has left the cache; the
+// probes afterwards find the statement uncached, prepare it again and execute.
+// The run is started here and judged by emit (for the silent kind: at the end of the tier, after the timeout).
+func (rn *runner) startPrepareFails(kind, role int, batch bool) *startedRun {
+	r := rn.r
+	c := worldCfg{nhosts: 1, nconns: 1 + r.Intn(2), capacity: []int{1000, 0, 2}[r.Intn(3)], stmts: mkStmts(2, r), stableID: r.Bool()}
+	if kind == pfSilent {
+		c.timeout = silentTimeout
+	}
+	w, err := newWorld(r, c)
+	if err != nil {
+		rn.out.Case("trace Z:no-session", "accept", "conc/no-session", true)
+		return nil
+	}
+	for j := range w.stmts {
+		if batch && w.stmts[j].ncols == 0 {
+			w.stmts[j].ncols = 1 // batches prepare only entries with values; the server's metadata is what counts
+		}
+	}
+	spec := func() *callSpec {
+		if batch {
+			return &callSpec{batch: true, host: 0, entries: []entrySpec{{stmt: 1, nvals: w.stmts[1].ncols}, {stmt: 0, nvals: w.stmts[0].ncols}}}
+		}
+		return &callSpec{host: 0, entries: []entrySpec{{stmt: 0, nvals: w.stmts[0].ncols}}}
+	}
+	k := 2 + r.Intn(3)
+	armed := role == 0
+	failed := false
+	gate := make(chan struct{})
+	w.onPrepare = func(n *nodeState, stmt, serial int) (pfate, chan struct{}) {
+		if stmt == 0 && armed && !failed {
+			failed = true
+			return pfate{fail: true, kind: kind}, gate
+		}
+		return pfate{}, nil
+	}
+	if role == 1 {
+		// the statement is prepared and executed once, then the server loses everything
+		w.doCall(spec())
+		w.h.mu.Lock()
+		w.nodes[0].registered = map[string]int{}
+		w.nforget++
+		armed = true
+		w.h.mu.Unlock()
+	}
+	first := w.h.ncalls
+	wg := &sync.WaitGroup{}
+	for i := 0; i < k; i++ {
+		wg.Add(1)
+		go func() { defer wg.Done(); w.doCall(spec()) }()
+	}
+	go func() {
+		w.waitHist(func(evs []hev) bool {
+			n := 0
+			for _, e := range evs {
+				if strings.HasPrefix(e.text, "S:") {
+					n++
+				}
+			}
+			return n >= first+k
+		})
+		time.Sleep(15 * time.Millisecond) // schedule only: let them reach the flight
+		close(gate)
+	}()
+	kindw := "query"
+	if batch {
+		kindw = "batch"
+	}
+	return &startedRun{w: w, wg: wg, class: fmt.Sprintf("prepare-fails/%s/%s/%s", pfWords[kind], []string{"cold", "after-loss"}[role], kindw)}
+}
+
+// stepped: a run driven letter by letter from the server's side of the wire. EVERY PREPARE and every EXECUTE / BATCH is
+// held when it arrives - its answer is fixed at arrival from the run's fate strings (the P / X event carries it) but goes
+// out only when the schedule says so - and executions start and are cancelled when the schedule says so:
+//
+//	a  start a query of statement 0        b  start a query of statement 1 (cache of 1: evicts statement 0's entry)
+//	c  start a batch [statement 1, statement 0]
+//	k  cancel the oldest running execution whose context has not been cancelled yet (as a rule the one that published
+//	   the flight the others wait for)   l  cancel the youngest such execution (as a rule a waiter)
+//	p  let the oldest held PREPARE answer go    x  let the oldest held EXECUTE / BATCH answer go
+//
+// pf: per PREPARE in arrival order o(k) | e(rror frame) | g(arbled) | k(other kind); xf: per EXECUTE / BATCH with known ids
+// o(k) | e(rror) | f(orget everything, UNPREPARED) | u(UNPREPARED with a foreign id). After each letter the driver gets a
+// moment to come to rest (history unchanged for 300 µs, at most 5 ms - schedule shaping only). After the word everything
+// held goes out in arrival order and nothing is held any more; then the probes. This walks the placements of PREPARE
+// completions / failures, UNPREPARED answers, evictions and cancellations RELATIVE to the lookups of the other executions
+// that the timing of free-running goroutines only samples.
+func (rn *runner) stepped(capacity int, word, pf, xf string) {
+	r := rn.r
+	c := worldCfg{nhosts: 1, nconns: 1, capacity: capacity, stmts: []stmtDef{stmtWithCols(0, 1+r.Intn(2)), stmtWithCols(1, 1+r.Intn(2))}, stableID: r.Bool()}
+	w, err := newWorld(r, c)
+	if err != nil {
+		rn.out.Case("trace Z:no-session", "accept", "conc/no-session", true)
+		return
+	}
+	var pq, xq []chan struct{} // held answers, in arrival order (history lock)
+	free := false
+	np, nx := 0, 0
+	w.onPrepare = func(n *nodeState, stmt, serial int) (pfate, chan struct{}) {
+		f := pfate{}
+		if np < len(pf) {
+			switch pf[np] {
+			case 'e':
+				f = pfate{fail: true, kind: pfFrame}
+			case 'g':
+				f = pfate{fail: true, kind: pfUndecodable}
+			case 'k':
+				f = pfate{fail: true, kind: pfOtherKind}
+			}
+		}
+		np++
+		if free {
+			return f, nil
+		}
+		g := make(chan struct{})
+		pq = append(pq, g)
+		return f, g
+	}
+	w.onExec = func(n *nodeState, call int, known bool) (xfate, chan struct{}, bool) {
+		f := xfate{}
+		if known {
+			if nx < len(xf) {
+				f.kind = map[byte]int{'o': 0, 'e': 1, 'f': 2, 'u': 3}[xf[nx]]
+			}
+			nx++
+		}
+		if free {
+			return f, nil, true
+		}
+		g := make(chan struct{})
+		xq = append(xq, g)
+		return f, g, true
+	}
+	rest := func() {
+		last, same := -1, time.Now()
+		dl := time.Now().Add(5 * time.Millisecond)
+		for time.Now().Before(dl) {
+			w.h.mu.Lock()
+			n := len(w.h.evs)
+			w.h.mu.Unlock()
+			if n != last {
+				last, same = n, time.Now()
+			} else if time.Since(same) > 300*time.Microsecond {
+				return
+			}
+			time.Sleep(50 * time.Microsecond)
+		}
+	}
+	var wg sync.WaitGroup
+	start := func(cs *callSpec) {
+		cs.ctx = ctxManual
+		wg.Add(1)
+		go func() { defer wg.Done(); w.doCall(cs) }()
+	}
+	e0 := entrySpec{stmt: 0, nvals: w.stmts[0].ncols}
+	e1 := entrySpec{stmt: 1, nvals: w.stmts[1].ncols}
+	pop := func(q *[]chan struct{}) {
+		w.h.mu.Lock()
+		var g chan struct{}
+		if len(*q) > 0 {
+			g = (*q)[0]
+			*q = (*q)[1:]
+		}
+		w.h.mu.Unlock()
+		if g != nil {
+			close(g)
+		}
+	}
+	for i := 0; i < len(word); i++ {
+		switch word[i] {
+		case 'a':
+			start(&callSpec{host: 0, entries: []entrySpec{e0}})
+		case 'b':
+			start(&callSpec{host: 0, entries: []entrySpec{e1}})
+		case 'c':
+			start(&callSpec{host: 0, batch: true, entries: []entrySpec{e1, e0}})
+		case 'k', 'l':
+			w.h.mu.Lock()
+			var nums []int
+			for num, lc := range w.live {
+				if !lc.returned && !lc.kLogged {
+					nums = append(nums, num)
+				}
+			}
+			sort.Ints(nums)
+			if len(nums) > 0 {
+				if word[i] == 'k' {
+					w.cancelLocked(nums[0])
+				} else {
+					w.cancelLocked(nums[len(nums)-1])
+				}
+			}
+			w.h.mu.Unlock()
+		case 'p':
+			pop(&pq)
+		case 'x':
+			pop(&xq)
+		}
+		rest()
+	}
+	w.h.mu.Lock()
+	free = true
+	held := append(append([]chan struct{}{}, pq...), xq...)
+	pq, xq = nil, nil
+	w.h.mu.Unlock()
+	for _, g := range held {
+		close(g)
+	}
+	rn.emit(w, &wg, fmt.Sprintf("stepped/cap%d/len%d", capacity, len(word)))
+}
+
+// steppedRandom: a random schedule word (starts with an execution; more releases than anything else) and random fates
+func (rn *runner) steppedRandom() {
+	r := rn.r
+	n := 4 + r.Intn(8)
+	word := []byte{"abc"[r.Intn(3)]}
+	for len(word) < n {
+		word = append(word, "aabccklppppxxx"[r.Intn(14)])
+	}
+	pf := make([]byte, 8)
+	for i := range pf {
+		pf[i] = "ooooegk"[r.Intn(7)]
+	}
+	xf := make([]byte, 10)
+	for i := range xf {
+		xf[i] = "ooooeffu"[r.Intn(8)]
+	}
+	rn.stepped([]int{1, 1, 2, 1000}[r.Intn(4)], string(word), string(pf), string(xf))
+}
+
+// connectionLost: the server closes every connection of the host (a node that goes away and comes back with its
+// prepared statements) instead of answering - role 0: the PREPARE of a cold statement, with 2..4 executions waiting
+// for it (the flight's Conn.exec fails: the c.exec error arm of prepareStatement, no timeout involved); role 1: the
+// EXECUTE / BATCH frames of 2..4 executions of a cached statement. From the loss on, until the pool is seen whole
+// again, every call that is running or starts has a K (it may return an abort error: the connection error, or
+// context.Canceled from the CONNECTION's context, which is what a flight started on a closed connection fails with);
+// the probes afterwards start without that licence: they must find no remembered failure, prepare again where the
+// entry is gone and succeed. Judged without the every-removal-justified clause (a flight published on a connection
+// that is already closed fails before its PREPARE reaches the server).
+func (rn *runner) connectionLost(role int, batch bool) {
+	r := rn.r
+	c := worldCfg{nhosts: 1, nconns: 1 + r.Intn(2), capacity: []int{1000, 0, 2}[r.Intn(3)], stmts: mkStmts(2, r), stableID: r.Bool()}
+	w, err := newWorld(r, c)
+	if err != nil {
+		rn.out.Case("trace Z:no-session", "accept", "conc/no-session", true)
+		return
+	}
+	for j := range w.stmts {
+		if batch && w.stmts[j].ncols == 0 {
+			w.stmts[j].ncols = 1
+		}
+	}
+	spec := func() *callSpec {
+		if batch {
+			return &callSpec{batch: true, host: 0, entries: []entrySpec{{stmt: 1, nvals: w.stmts[1].ncols}, {stmt: 0, nvals: w.stmts[0].ncols}}}
+		}
+		return &callSpec{host: 0, entries: []entrySpec{{stmt: 0, nvals: w.stmts[0].ncols}}}
+	}
+	k := 2 + r.Intn(3)
+	gate := make(chan struct{})
+	if role == 1 {
+		w.doCall(spec())
+	}
+	first := w.h.ncalls
+	fired := false
+	if role == 0 {
+		w.onPrepare = func(n *nodeState, stmt, serial int) (pfate, chan struct{}) {
+			if stmt == 0 && !fired {
+				fired = true
+				return pfate{fail: true, kind: pfClosed}, gate
+			}
+			return pfate{}, nil
+		}
+	} else {
+		w.onExec = func(n *nodeState, call int, known bool) (xfate, chan struct{}, bool) {
+			if call >= first && !fired && known {
+				fired = true
+				return xfate{kind: 4}, gate, true
+			}
+			return xfate{}, nil, false
+		}
+	}
+	var callers sync.WaitGroup
+	for i := 0; i < k; i++ {
+		callers.Add(1)
+		go func() { defer callers.Done(); w.doCall(spec()) }()
+	}
+	go func() {
+		w.waitHist(func(evs []hev) bool {
+			n := 0
+			for _, e := range evs {
+				if strings.HasPrefix(e.text, "S:") {
+					n++
+				}
+			}
+			return n >= first+k
+		})
+		time.Sleep(15 * time.Millisecond) // schedule only
+		close(gate)
+	}()
+	// the window closes when the callers are back and the pool is whole again (if that is not seen in time it stays
+	// open: the probes then have the licence too)
+	wg := &sync.WaitGroup{}
+	wg.Add(1)
+	go func() {
+		defer wg.Done()
+		callers.Wait()
+		dl := time.Now().Add(3 * time.Second)
+		for time.Now().Before(dl) {
+			if w.poolRenewed() {
+				w.h.mu.Lock()
+				w.lossy = false
+				w.h.mu.Unlock()
+				return
+			}
+			time.Sleep(time.Millisecond)
+		}
+	}()
+	kindw := "query"
+	if batch {
+		kindw = "batch"
+	}
+	rn.emit(w, wg, fmt.Sprintf("connection-lost/%s/%s", []string{"at-prepare", "at-execute"}[role], kindw))
+}
+
+func (rn *runner) prepareFails(kind, role int, batch bool) {
+	if sr := rn.startPrepareFails(kind, role, batch); sr != nil {
+		rn.emit(sr.w, sr.wg, sr.class)
+	}
+}
+
 func imax(a, b int) int {
 	if a > b {
 		return a
@@ -1388,7 +2037,7 @@ func (rn *runner) evictionInFlight() {
 	w.onPrepare = nil
 	for j := range w.stmts {
 		for i := 0; i < 200; i++ {
-			w.nodes[0].pf[j] = append(w.nodes[0].pf[j], pfate{fail: r.Intn(100) < pfail, delay: time.Duration(200+r.Intn(2500)) * time.Microsecond})
+			w.nodes[0].pf[j] = append(w.nodes[0].pf[j], pfate{fail: r.Intn(100) < pfail, kind: r.Intn(3), delay: time.Duration(200+r.Intn(2500)) * time.Microsecond})
 		}
 	}
 	var wg sync.WaitGroup
@@ -1423,7 +2072,7 @@ func (rn *runner) sameStatementBurst() {
 	}
 	fails := r.Intn(3) == 0
 	for j := range w.stmts {
-		w.nodes[0].pf[j] = []pfate{{fail: fails && j == 0, delay: time.Duration(r.Intn(3000)) * time.Microsecond}}
+		w.nodes[0].pf[j] = []pfate{{fail: fails && j == 0, kind: r.Intn(3), delay: time.Duration(r.Intn(3000)) * time.Microsecond}}
 	}
 	var sizes []int
 	for range w.stmts {
@@ -1680,7 +2329,17 @@ func runSeqSpec(sp *seqSpec, outdir, tag string) (op string, hung string, err er
 	}
 	nx := 0
 	w.onPrepare = func(n *nodeState, stmt, serial int) (pfate, chan struct{}) {
-		return pfate{fail: serial < len(sp.pf) && sp.pf[serial] == 'e'}, nil
+		if serial < len(sp.pf) {
+			switch sp.pf[serial] {
+			case 'e':
+				return pfate{fail: true, kind: pfFrame}, nil
+			case 'g':
+				return pfate{fail: true, kind: pfUndecodable}, nil
+			case 'k':
+				return pfate{fail: true, kind: pfOtherKind}, nil
+			}
+		}
+		return pfate{}, nil
 	}
 	w.onExec = func(n *nodeState, call int, known bool) (xfate, chan struct{}, bool) {
 		if !known || nx >= len(sp.xf) {
@@ -1738,7 +2397,7 @@ func (rn *runner) sequential() {
 	for i := range pf {
 		pf[i] = 'o'
 		if r.Intn(5) == 0 {
-			pf[i] = 'e'
+			pf[i] = "egk"[r.Intn(3)]
 		}
 	}
 	xf := make([]byte, 80)
@@ -1762,6 +2421,8 @@ func (rn *runner) sequential() {
 			e := entrySpec{stmt: s, nvals: sp.cols[s]}
 			if r.Intn(10) == 0 {
 				e.nvals = r.Intn(4)
+			} else if r.Intn(14) == 0 && e.nvals > 0 {
+				e.nvals += badValue
 			}
 			return e
 		}
@@ -1808,6 +2469,53 @@ func sessionTier(r *vh.Rng, out *vh.Out, outdir string, mult int) {
 		maxHangs = 2
 	}
 	steps := []func(){}
+	// the runs with a PREPARE that is never answered: started now, judged at the end (the driver's timeout has to pass)
+	var silentRuns []*startedRun
+	for i := 0; i < mult; i++ {
+		for role := 0; role < 2; role++ {
+			for _, batch := range []bool{false, true} {
+				if sr := rn.startPrepareFails(pfSilent, role, batch); sr != nil {
+					silentRuns = append(silentRuns, sr)
+				}
+			}
+		}
+	}
+	for i := 0; i < mult; i++ {
+		for kind := pfFrame; kind < pfSilent; kind++ {
+			for role := 0; role < 2; role++ {
+				kind, role := kind, role
+				steps = append(steps, func() { rn.prepareFails(kind, role, false) })
+				steps = append(steps, func() { rn.prepareFails(kind, role, true) })
+			}
+		}
+	}
+	for i := 0; i < 80*mult; i++ {
+		steps = append(steps, rn.steppedRandom)
+	}
+	if mult > 1 {
+		// thorough: every word a·w, |w| = 4 over {a, b, k, l, p, x}, cache of 1 and unbounded, first PREPARE ok / failing,
+		// first EXECUTE answered UNPREPARED(forget) - 2 x 2 x 1296 runs
+		letters := "abklpx"
+		for _, capacity := range []int{1, 1000} {
+			for _, pf := range []string{"oooooooo", "eooooooo"} {
+				for i := 0; i < 1296; i++ {
+					wd := []byte{'a'}
+					for j, x := 0, i; j < 4; j, x = j+1, x/6 {
+						wd = append(wd, letters[x%6])
+					}
+					capacity, pf, word := capacity, pf, string(wd)
+					steps = append(steps, func() { rn.stepped(capacity, word, pf, "foooooooo") })
+				}
+			}
+		}
+	}
+	for i := 0; i < 2*mult; i++ {
+		for role := 0; role < 2; role++ {
+			role := role
+			steps = append(steps, func() { rn.connectionLost(role, false) })
+			steps = append(steps, func() { rn.connectionLost(role, true) })
+		}
+	}
 	for i := 0; i < 12*mult; i++ {
 		steps = append(steps, rn.nearCollide)
 	}
@@ -1847,5 +2555,12 @@ func sessionTier(r *vh.Rng, out *vh.Out, outdir string, mult int) {
 			continue
 		}
 		f()
+	}
+	for _, sr := range silentRuns {
+		if rn.nhang >= maxHangs {
+			out.Dist["conc/skipped-after-hang"]++
+			continue
+		}
+		rn.emit(sr.w, sr.wg, sr.class)
 	}
 }
